@@ -82,7 +82,7 @@ def build_and_run_c(prog, sc, d, idx, valgrind=False, keep=False, c_prologue="",
     if rc != 0:
         res.update(status="skip", stage="rustc", detail=e[-2000:])
         return res
-    rc, o, e = toolrun.run_tool("c", src, os.path.join(d, "c"))
+    rc, o, e = toolrun.run_tool("c", src, os.path.join(d, "c"), configs=["unsafe_references_in_callbacks=true"])
     kind, det = toolrun.classify_tool(rc, e)
     if kind != "ok":
         res.update(status="skip", stage="tool:" + kind, detail=str(det)[:2000])
@@ -184,6 +184,8 @@ def ty_productions(prog, t, pos, out):
         out[pos + ":result"] += 1
         ty_productions(prog, t[1], pos + ":ok", out)
         ty_productions(prog, t[2], pos + ":err", out)
+    elif k == "oref" and pos in ("cbarg", "trarg"):
+        out["%s:&%sopaque" % (pos, "mut " if t[2] else "")] += 1
     elif k == "cb":
         out[pos + ":callback"] += 1
         if len(t) > 4:
@@ -298,7 +300,7 @@ def c03_leg(chk, tier, seed):
     thorough = tier == "thorough"
     nprog = 600 if thorough else 70
     toolrun.anchor()
-    prof = dict(out_structs=True, owned_slices=True, callbacks=True, opt_owned=True, held_callbacks=True, write_prob=0.3)
+    prof = dict(out_structs=True, owned_slices=True, callbacks=True, opt_owned=True, held_callbacks=True, write_prob=0.3, cb_orefs=True)
 
     ncpp = 200 if thorough else 20
 
@@ -372,7 +374,7 @@ def run_cpp_program(seed, idx, tag, profile=None, ncalls=40, stds=("c++17", "c++
     if rc != 0:
         res.update(status="skip", stage="rustc", detail=e[-2000:])
         return res
-    rc, o, e = toolrun.run_tool("cpp", src, os.path.join(d, "cpp"))
+    rc, o, e = toolrun.run_tool("cpp", src, os.path.join(d, "cpp"), configs=["unsafe_references_in_callbacks=true"])
     kind, det = toolrun.classify_tool(rc, e)
     if kind != "ok":
         res.update(status="skip", stage="tool:" + kind, detail=str(det)[:2000])
